@@ -194,6 +194,83 @@ def schema_printer(chk, facts):
     chk.floor(rule, "printed components", n, 10)
 
 
+def collision_guard(chk, facts):
+    """JSON -> Cedar syntax refuses schemas the Cedar syntax cannot express: an entity type and a common type sharing a
+    name in one namespace. Both sides of that comparison are *all* names of their kind in the namespace (keys of the
+    entity_types / common_types maps, mapped and collected, never filtered)."""
+    from lib.slice import leaf_producers
+    rule = "C09.COLLISION"
+    f = facts.fn("cedar_policy_core::validator::cedar_schema::fmt::json_schema_to_cedar_schema_str")
+    if f is None:
+        chk.lost(rule, "cedar_schema::fmt::json_schema_to_cedar_schema_str")
+        return
+    chk.functions.add(f.name)
+    inter = [(b, t) for b, t in f.calls() if callee(t).endswith("::intersection")]
+    if len(inter) != 1:
+        chk.lost(rule, "the entity-type / common-type name intersection", "found %d" % len(inter))
+        return
+    b, t = inter[0]
+    tr = ("::collect", "::map", "::keys", "::iter", "::cloned", "::into_iter", "::copied")
+    sides = [leaf_producers(f, o, extra_transparent=tr) for o in t[2][:2]]
+    fields = []
+    for pr in sides:
+        fl = sorted(x[6:].split(".")[-1] for x in pr if x.startswith("place:") and x[6:].split(".")[-1] in ("entity_types", "common_types"))
+        calls = sorted(x for x in pr if x.startswith("call:"))
+        fields.append((fl, calls))
+    ok = sorted(fl[0] for fl, _ in fields if len(fl) == 1) == ["common_types", "entity_types"] and not any(c for _, c in fields)
+    chk.ob(rule, "all-names", ok, "the collision check intersects all entity-type names with all common-type names of the namespace: sides %s" % [(fl, [c.split("::")[-1] for c in cs]) for fl, cs in fields],
+           where=f.where(t[1].get("l")), fn=f.name, sample={"sides": [fl for fl, _ in fields]})
+    # a collision is an error
+    ext = [(b2, t2) for b2, t2 in f.calls() if callee(t2).endswith("::extend") and cfg.dominates(f, b, b2)]
+    errs = [s_ for _, s_ in f.stmts() if s_[0] == "a" and s_[2][0] == "agg" and s_[2][1][0] == "adt" and str(s_[2][1][1]).endswith("NameCollisionsError")]
+    chk.ob(rule, "reported", bool(ext) and len(errs) == 1, "collisions are collected (%d extend) and reported as NameCollisionsError (%d site)" % (len(ext), len(errs)), where=f.where(), fn=f.name)
+
+
+def namespace_of_loaded_schema(chk, facts):
+    """ValidatorSchema::to_json_schema groups declarations by the namespace of their fully-qualified name: the namespace
+    `A::B` is the name with basename B (the *last* component) under path [A]."""
+    from lib.slice import leaf_producers
+    rule = "C09.NAMESPACE"
+    f = facts.fn("cedar_policy_core::validator::schema::to_json::<impl cedar_policy_core::validator::schema::ValidatorSchema>::to_json_schema")
+    if f is None:
+        hits = [n for n in facts.fns.keys() if n.endswith("ValidatorSchema>::to_json_schema") and "to_json" in n]
+        f = facts.fns[hits[0]] if len(hits) == 1 else None
+    if f is None:
+        chk.lost(rule, "ValidatorSchema::to_json_schema")
+        return
+    chk.functions.add(f.name)
+    new = [(b, t) for b, t in f.calls() if callee(t).endswith("name::InternalName::new")]
+    if len(new) != 1:
+        chk.lost(rule, "the InternalName::new call rebuilding the namespace name", "found %d" % len(new))
+        return
+    b, t = new[0]
+    # where the basename comes from: follow moves / pattern bindings back to the call that split the path
+    from lib import panics
+    defs = panics._def_sites(f)
+    src = []
+    work, seen = [t[2][0]], set()
+    while work:
+        o = work.pop()
+        if o[0] not in ("c", "m") or o[1][0] in seen:
+            continue
+        l = o[1][0]
+        seen.add(l)
+        for kind, bb, x in defs.get(l, []):
+            if kind == "call":
+                c = callee(x)
+                if c.endswith(("Clone>::clone", "::cloned", "::unwrap", "::expect", "::to_owned")) and x[2]:
+                    work.append(x[2][0])
+                else:
+                    src.append(c.split("::")[-1])
+            elif x[2][0] == "use":
+                work.append(["c", [x[2][1][1][0]]] if x[2][1][0] in ("c", "m") else x[2][1])
+            elif x[2][0] in ("ref", "addr"):
+                work.append(["c", [x[2][1][0]]])
+    ok = bool(src) and all(x in ("pop", "split_last", "last", "pop_back") for x in src)
+    chk.ob(rule, "basename-is-last", bool(ok), "the namespace's name is rebuilt with its last path component as basename (splitting calls: %s)" % src, where=f.where(t[1].get("l")), fn=f.name,
+           sample={"split": src})
+
+
 def run(chk, facts, tier):
     facts.load_crate("cedar_policy_core.lib")
     chk.explanation = (
@@ -221,3 +298,5 @@ def run(chk, facts, tier):
     n += applies_to(chk, rule, facts)
     chk.floor(rule, "components", n, 11)
     schema_printer(chk, facts)
+    collision_guard(chk, facts)
+    namespace_of_loaded_schema(chk, facts)
